@@ -84,6 +84,10 @@ def canon_exc(e):
         return "CLOSED"
     if isinstance(e, X.WebSocketTimeoutException):
         return "TIMEOUT"
+    if isinstance(e, BlockingIOError):
+        # only a simulated NON-BLOCKING socket raises it: "no data now" is that socket's form of the receive timeout
+        # (the library passes it to the caller unchanged; state must be kept exactly as for a timeout)
+        return "TIMEOUT"
     if isinstance(e, X.WebSocketBadStatusException):
         return f"BADSTATUS({e.status_code})"
     if isinstance(e, X.WebSocketProxyException):
